@@ -268,6 +268,11 @@ func report(r *Runner, prop, tier, evidence, known string, noReplay bool, loadT,
 	}
 	violations := 0
 	os.MkdirAll("/verif/evidence/replay", 0o755)
+	if old, _ := filepath.Glob(fmt.Sprintf("/verif/evidence/replay/%s_*.json", prop)); len(old) > 0 {
+		for _, f := range old {
+			os.Remove(f)
+		}
+	}
 	var violLines []string
 	var knownLines []string
 	var violSamples []map[string]interface{}
@@ -326,6 +331,9 @@ func report(r *Runner, prop, tier, evidence, known string, noReplay bool, loadT,
 			"model": modelStrings(g.f.Model, g.f.Vars), "case": rc, "native": confirmed, "native_detail": detail, "decisions": g.f.Extra["decisions"]}, "", " ")
 		os.WriteFile(rp, b, 0o644)
 		violLines = append(violLines, fmt.Sprintf("VIOLATION property=%s replay=%s", prop, rp))
+		if violations > 12 {
+			continue // the replay files and the evidence list every one; keep the console short
+		}
 		fmt.Printf("  violation: %s — %s (native: %s %s) model=%v\n", sig, firstLine(g.f.Msg), confirmed, detail, modelStrings(g.f.Model, g.f.Vars))
 		violSamples = append(violSamples, map[string]interface{}{"signature": sig, "model": modelStrings(g.f.Model, g.f.Vars), "choices": g.f.Choices, "message": g.f.Msg})
 	}
@@ -445,7 +453,11 @@ func report(r *Runner, prop, tier, evidence, known string, noReplay bool, loadT,
 	for _, l := range knownLines {
 		fmt.Println(l)
 	}
-	for _, l := range violLines {
+	for i, l := range violLines {
+		if i == 12 {
+			fmt.Printf("... and %d more violations (see /verif/evidence/replay/%s_*.json)\n", len(violLines)-12, prop)
+			break
+		}
 		fmt.Println(l)
 	}
 	for _, l := range inconclusive {
